@@ -194,7 +194,26 @@ def cc_viol(r):
                         out.append((10, k, None))
         if k == "Return" and any_in(OMP_REGIONS + ACC_REGIONS, anc):
             out.append((11, k, nearest(OMP_REGIONS + ACC_REGIONS, anc)))
+        if k == "OMPTarget":
+            ds = [x for c in n[3] for x in close_omp(c)]
+            if "OMPTeamsParDo" in ds and len(ds) >= 2:
+                out.append((3, "OMPTeamsParDo", "OMPTarget"))
+        if k in ACC_COMPUTE and "ACCRoutine" in rk:
+            out.append((5, k, "ACCRoutine"))
     return out
+
+
+def close_omp(t):
+    """OpenMP directives of a subtree that are not below another OpenMP region of that subtree"""
+    if t[0] == "D":
+        if kind(t) in OMP_REGIONS:
+            return [kind(t)]
+        return [x for c in t[3] for x in close_omp(c)]
+    if t[0] == "SD":
+        return ["OMPTaskwait"] if kind(t) == "OMPTaskwait" else []
+    if t[0] in ("L", "I"):
+        return [x for c in t[1] for x in close_omp(c)]
+    return []
 
 
 def wf_codes(r):
